@@ -569,6 +569,18 @@ impl Branches<'_> {
     }
 }
 
+/// Verification hook: the private branch clean-up path computation, relative to a fixed root `root`.
+#[cfg(feature = "verif-hooks")]
+pub fn verif_get_cleanup_path(branch: &str, remaining_branches: &[&str]) -> Result<Option<String>> {
+    let base_location = BranchLocation {
+        path: Path::from("root"),
+        uri: "memory://root".to_string(),
+        branch: None,
+    };
+    Branches::get_cleanup_path(branch, remaining_branches, &base_location)
+        .map(|p| p.map(|p| p.to_string()))
+}
+
 #[derive(Debug, Clone, Serialize, Deserialize)]
 #[serde(rename_all = "camelCase")]
 pub struct TagContents {
